@@ -80,16 +80,18 @@ func (s *state) keep(kind, key string, v map[string]any) {
 }
 
 func (s *state) flushSamples() {
-	for _, kind := range []string{"e2e", "e2e-all-excluded", "std-import"} {
-		for _, x := range s.samples[kind] {
-			s.c.Sample(x.v)
+	pick := func(kind string, n int) {
+		for i, x := range s.samples[kind] {
+			if i < n {
+				s.c.Sample(x.v)
+			}
 		}
 	}
-	for _, kind := range []string{"api-import"} {
-		for _, x := range s.samples[kind] {
-			s.c.Sample(x.v)
-		}
-	}
+	pick("e2e-sentinel", 1)
+	pick("e2e", 2)
+	pick("e2e-all-excluded", 1)
+	pick("api-import", 1)
+	pick("std-import", 1)
 }
 
 func (s *state) lock() func() { s.mu.Lock(); return s.mu.Unlock }
@@ -278,6 +280,7 @@ func Run(c *core.Ctx) int {
 			"go/build/constraint parses and evaluates //go:build syntax correctly (cross-checked against a direct evaluation of the generator's own tree)",
 			"known GOOS/GOARCH lists are those of the go1.23 reference toolchain",
 			"GOROOT is go1.23 with GOPHERJS_SKIP_VERSION_CHECK=1; release tags must still stop at go1.20",
+			"emitted programs of the batch phase run in fresh vm contexts of one node process (js/c18_runner.js); a program that misbehaves there is re-run stand-alone with plain node and that run is judged",
 			"standard-library GoFiles of runtime, runtime/pprof, sync, syscall/js are altered by documented post-load tweaks and are not compared (counted as inconclusive)",
 		})
 }
@@ -487,7 +490,7 @@ func (s *state) e2eBatch(pkgs []*GenPkg, dirs []string, jobs []e2eJob, chunk int
 	jf, rf := filepath.Join(d, "jobs.json"), filepath.Join(d, "res.json")
 	b, _ := json.Marshal(bj)
 	os.WriteFile(jf, b, 0o644)
-	r := core.Exec(d, core.BaseEnv("GOPATH="+s.gopath, "GO111MODULE=off", "GOMAXPROCS=4"), 30*time.Minute, "", c.Self, "c18-build", jf, rf)
+	r := core.Exec(d, core.BaseEnv("GOPATH="+s.gopath, "GO111MODULE=off", "GOMAXPROCS=2"), 30*time.Minute, "", c.Self, "c18-build", jf, rf)
 	var res []BuildRes
 	rb, err := os.ReadFile(rf)
 	if r.TimedOut || r.Exit != 0 || err != nil || json.Unmarshal(rb, &res) != nil || len(res) != len(jobs) {
@@ -707,7 +710,11 @@ func (s *state) judge(g *GenPkg, dir string, j e2eJob, ok bool, output string, j
 		return
 	}
 	if len(obsGo) >= 4 && len(obsJS) >= 1 {
-		s.keep("e2e", key, map[string]any{"files_in_dirs": nd, "registered_at_run_time": len(obsGo), "incjs_ran": obsJS,
+		kind := "e2e"
+		if g.Name == "c18sentinel" {
+			kind = "e2e-sentinel"
+		}
+		s.keep(kind, key, map[string]any{"files_in_dirs": nd, "registered_at_run_time": len(obsGo), "incjs_ran": obsJS,
 			"some_decisions": someDecisions(g, preds[0], dir)})
 	}
 }
@@ -737,7 +744,7 @@ func someDecisions(g *GenPkg, p *Prediction, dir string) []string {
 	var out []string
 	nsel, nexcl := 0, 0
 	for _, f := range g.Dirs[0].Files {
-		if f.Kind != "go" || f.Expr == "" || f.Late {
+		if f.Kind != "go" || f.Expr == "" || f.Late || f.Hidden || f.Cgo {
 			continue
 		}
 		if sel[f.Name] && nsel < 2 {
@@ -771,7 +778,7 @@ func (s *state) runImport(name string, chunks [][]ImportJob) map[string][]Import
 		jf, rf := filepath.Join(d, "jobs.json"), filepath.Join(d, "res.json")
 		b, _ := json.Marshal(chunks[i])
 		os.WriteFile(jf, b, 0o644)
-		r := core.Exec(d, core.BaseEnv("GOMAXPROCS=4"), 20*time.Minute, "", c.Self, "c18-import", jf, rf)
+		r := core.Exec(d, core.BaseEnv("GOMAXPROCS=2"), 20*time.Minute, "", c.Self, "c18-import", jf, rf)
 		if r.TimedOut {
 			c.Inconclusive(name + "-child-timeout")
 			return
